@@ -114,6 +114,85 @@ pub fn rand_bank_opt(r: &mut R) -> BankConfigOpt {
     o
 }
 
+/// A creation-time configuration: the default one with several fields replaced by boundary /
+/// hostile values (most requests stay acceptable; some must be refused).
+pub fn rand_bank_compact(r: &mut R) -> BankConfigCompact {
+    let mut c = default_bank_cfg();
+    let o = rand_bank_opt(r);
+    if let Some(x) = o.asset_weight_init {
+        c.asset_weight_init = x;
+    }
+    if let Some(x) = o.asset_weight_maint {
+        c.asset_weight_maint = x;
+    }
+    if let Some(x) = o.liability_weight_init {
+        c.liability_weight_init = x;
+    }
+    if let Some(x) = o.liability_weight_maint {
+        c.liability_weight_maint = x;
+    }
+    if let Some(x) = o.deposit_limit {
+        c.deposit_limit = x;
+    }
+    if let Some(x) = o.borrow_limit {
+        c.borrow_limit = x;
+    }
+    if let Some(x) = o.operational_state {
+        c.operational_state = x;
+    }
+    if let Some(x) = o.risk_tier {
+        c.risk_tier = x;
+        if x == RiskTier::Isolated && r.gen_bool(0.6) {
+            c.asset_weight_init = wi(0.0);
+            c.asset_weight_maint = wi(0.0);
+        }
+    }
+    if let Some(x) = o.total_asset_value_init_limit {
+        c.total_asset_value_init_limit = x;
+    }
+    if let Some(x) = o.oracle_max_confidence {
+        c.oracle_max_confidence = x;
+    }
+    if let Some(x) = o.oracle_max_age {
+        c.oracle_max_age = x;
+    }
+    if r.gen_bool(0.4) {
+        let i = rand_interest_opt(r);
+        let k = &mut c.interest_rate_config;
+        if let Some(x) = i.insurance_fee_fixed_apr {
+            k.insurance_fee_fixed_apr = x;
+        }
+        if let Some(x) = i.insurance_ir_fee {
+            k.insurance_ir_fee = x;
+        }
+        if let Some(x) = i.protocol_fixed_fee_apr {
+            k.protocol_fixed_fee_apr = x;
+        }
+        if let Some(x) = i.protocol_ir_fee {
+            k.protocol_ir_fee = x;
+        }
+        if let Some(x) = i.protocol_origination_fee {
+            k.protocol_origination_fee = x;
+        }
+        if let Some(x) = i.zero_util_rate {
+            k.zero_util_rate = x;
+        }
+        if let Some(x) = i.hundred_util_rate {
+            k.hundred_util_rate = x;
+        }
+        if let Some(x) = i.points {
+            k.points = x;
+        }
+    }
+    if r.gen_bool(0.05) {
+        c.asset_tag = pick(r, &[1u8, 2, 3, 4, 5, 9]);
+    }
+    if r.gen_bool(0.05) {
+        c.config_flags = r.gen::<u8>();
+    }
+    c
+}
+
 pub fn rand_emode_entries(r: &mut R) -> [EmodeEntry; MAX_EMODE_ENTRIES] {
     let z: WrappedI80F48 = I80F48::ZERO.into();
     let mut e = [EmodeEntry { collateral_bank_emode_tag: 0, flags: 0, pad0: [0; 5], asset_weight_init: z, asset_weight_maint: z }; MAX_EMODE_ENTRIES];
@@ -168,6 +247,9 @@ impl Admin {
         let banks: Vec<usize> = (0..w.banks.len()).filter(|b| w.banks[*b].group == self.g).collect();
         let b = pick(r, &banks);
         let bk = w.banks[b].key;
+        if r.gen_bool(0.04) {
+            return Some(self.create_bank(w, m, r).await);
+        }
         let roll = r.gen_range(0..100);
         let out = match roll {
             0..=17 => {
@@ -317,6 +399,30 @@ impl Admin {
             }
         };
         Some(out)
+    }
+
+    /// Bank creation through the monitored path: both ordinary variants with boundary / hostile
+    /// configurations, signed by the group admin or by somebody else. An accepted bank is real (it
+    /// stays on chain) but does not join the world's bank list: nobody ever enters it.
+    async fn create_bank(&mut self, w: &mut World, m: &mut Mon, r: &mut R) -> TxOut {
+        let gk = w.groups[self.g].key;
+        let s = self.signer_for(w, r, "admin");
+        let p = w.chain.payer.pubkey();
+        let fw = w.fee_wallet.pubkey();
+        let mint = r.gen_range(0..w.mints.len());
+        let (mkey, prog) = (w.mints[mint].key, w.mints[mint].program());
+        let cfg = rand_bank_compact(r);
+        let out = if r.gen_bool(0.5) {
+            let nb = w.next_kp();
+            let i = ix::add_bank(gk, s.pubkey(), p, fw, mkey, nb.pubkey(), prog, cfg);
+            w.exec(m, &[i], &[&s, &nb]).await
+        } else {
+            let seed = 700_000 + self.steps;
+            let (i, _) = ix::add_bank_with_seed(gk, s.pubkey(), p, fw, mkey, seed, prog, cfg);
+            w.exec(m, &[i], &[&s]).await
+        };
+        m.r.count(if out.ok() { "admin.bank_creations_accepted" } else { "admin.bank_creations_rejected" });
+        out
     }
 
     async fn emissions(&mut self, w: &mut World, m: &mut Mon, r: &mut R, b: usize) -> TxOut {
